@@ -14,3 +14,5 @@ mod build;
 mod c05;
 #[cfg(kani)]
 mod c31;
+#[cfg(kani)]
+mod c31p;
